@@ -133,7 +133,7 @@ def parse_rvalue(s):
             return ('cast', parse_operand(s[:m.start()]), m.group(1), m.group(2))
         return ('use', parse_operand(s))
     if s.startswith('&raw '):
-        return ('ref', parse_place(re.sub(r'^&raw (const|mut) ', '', s)))
+        return ('ref', parse_place(re.sub(r'^&raw (const|mut) (\(fake\) )?', '', s)))
     if s.startswith('&'):
         t = re.sub(r"^&('?\w+ )?(mut |fake shallow |fake deep )?", '', s)
         return ('ref', parse_place(t))
@@ -338,7 +338,11 @@ def parse_mir(text):
                 if mm:
                     cur = int(mm.group(1)); blocks[cur] = [[], None]
                 elif cur is not None and s and s != '}' and not s.startswith('//'):
-                    st = parse_stmt(s)
+                    try:
+                        st = parse_stmt(s)
+                    except (ValueError, IndexError, KeyError, AttributeError) as e:
+                        # a construct this parser does not know: fail lazily, only if the statement is ever executed
+                        st = ('unparsed', s, f'{type(e).__name__}: {e}')
                     if st[0] == 'term': blocks[cur][1] = st[1]
                     elif st[0] != 'nop': blocks[cur][0].append(st)
                 elif s == '}' and cur is not None:
